@@ -260,7 +260,7 @@ def rule_ownwaker(ctx, M):
     ok_init = False
     for (_, cp, nb, st) in nested(M, ri):
         caps = [ri.T.of_operand(f) for f in st["rv"]["fields"]]
-        if caps and old_len(caps[0]):
+        if any(old_len(c_) for c_ in caps):
             ok_init = True
     ok_inc = False
     for (_, cp, nb, _) in nested(M, ri):
